@@ -11,7 +11,7 @@
    A "message instance" i is one call of tpt_msg_send: inst[i] = [p sender thread, d destination
    (a worker or PVT), f flags, c callback class, u user-data id, st stage, err errno of a failed write].
    Thread ids: workers 0..N-1, PVT = N (the pool's shared virtual thread), external threads >= 100. *)
-EXTENDS Naturals, Sequences, FiniteSets, TLC
+EXTENDS Integers, Sequences, FiniteSets, TLC
 
 CONSTANTS Workers,      \* set of worker thread ids
           PVT,          \* id of the virtual thread
@@ -58,16 +58,18 @@ St(i) == inst[i].st
 SetSt(i, s) == inst' = [inst EXCEPT ![i].st = s]
 
 (* tpt_msg_send() entry: msg_sys.c "send.enter" *)
-Enter(i, p, d, f, c, u) ==
+(* s = the src argument (-1 = NULL: the library substitutes the calling pool thread, if it is one) *)
+Enter(i, p, d, f, c, u, s) ==
     /\ i \notin DOMAIN inst
     /\ d \in Threads
-    /\ inst' = inst @@ (i :> [p |-> p, d |-> d, f |-> f, c |-> c, u |-> u, st |-> "enter", err |-> 0])
+    /\ inst' = inst @@ (i :> [p |-> p, d |-> d, f |-> f, c |-> c, u |-> u, st |-> "enter", err |-> 0,
+                            src |-> IF s = -1 THEN (IF p \in Workers THEN p ELSE -1) ELSE s])
     /\ UNCHANGED <<tstate, wopen, pipe, batch, ran, ret>>
 
 (* the three places where the callback is invoked synchronously in the caller: "send.direct" 1/2/3 *)
 Direct(i, why) ==
     /\ i \in DOMAIN inst
-    /\ CASE why = 1 -> St(i) = "enter" /\ Has(inst[i].f, SELF_DIRECT) /\ inst[i].p = inst[i].d
+    /\ CASE why = 1 -> St(i) = "enter" /\ Has(inst[i].f, SELF_DIRECT) /\ inst[i].src = inst[i].d
          [] why = 2 -> St(i) = "notrunning" /\ Has(inst[i].f, FORCE)
          [] why = 3 -> St(i) = "wfail" /\ Has(inst[i].f, FAIL_DIRECT)
          [] OTHER   -> FALSE
@@ -79,7 +81,7 @@ Direct(i, why) ==
    `running` is what the read returned; the model checker ties it to tstate, a trace supplies it. *)
 ReadState(i, running) ==
     /\ i \in DOMAIN inst /\ St(i) = "enter"
-    /\ ~(Has(inst[i].f, SELF_DIRECT) /\ inst[i].p = inst[i].d)      \* else the self-direct branch was taken
+    /\ ~(Has(inst[i].f, SELF_DIRECT) /\ inst[i].src = inst[i].d)    \* else the self-direct branch was taken
     /\ SetSt(i, IF running THEN "running" ELSE "notrunning")
     /\ UNCHANGED <<tstate, wopen, pipe, batch, ran, ret>>
 
